@@ -69,6 +69,8 @@ type Script struct {
 	// the output is the Datadog client and the upstream an HTTP intake; Gen.Upstream is then the outcome per request:
 	// healthy (200) | lateAck (200 after 120 ms) | noAck (never answers) | closeNow (connection reset) | resetAfter1 (500) | resetAfter2 (300)
 	Datadog bool `json:"datadog"`
+	// with ViaRun: the stop request is SIGINT instead of SIGTERM
+	StopWithInt bool `json:"stopWithInt"`
 	// the Fluentd output logs in with a shared key; the upstream behaviour "badKey" is a server holding another key
 	Secret bool `json:"secret"`
 	// the singleton orchestrator (one pipeline, fixed tag dev.app1) instead of byKeySet: records of several apps share the
@@ -79,10 +81,10 @@ type Script struct {
 	// httpTimeout of the Datadog output in ms (0 = 400)
 	DDTimeoutMs int `json:"ddTimeoutMs"`
 	// record limit per chunk of the Fluentd output (0 = the shipped limits): chunks roll over by count, not only by the flush tick
-	ChunkRecords int `json:"chunkRecords"`
-	Keys       int    `json:"keys"`       // number of key sets (apps)
-	MemWindow  int    `json:"memWindow"`  // defs.BufferMaxNumChunksInMemory
-	Gens       []Gen  `json:"gens"`
+	ChunkRecords int   `json:"chunkRecords"`
+	Keys         int   `json:"keys"`      // number of key sets (apps)
+	MemWindow    int   `json:"memWindow"` // defs.BufferMaxNumChunksInMemory
+	Gens         []Gen `json:"gens"`
 }
 
 const confTemplate = `
@@ -542,44 +544,59 @@ func RunScript(sc Script, work string) *vtrace.Tracer {
 		var addrs []string
 		var shutdownInputs func()
 		var child *exec.Cmd
-		var childErr *strings.Builder
+		var childErr *safeBuf
 		if sc.ViaRun {
 			// the agent's own main path in a child process; ports are chosen here because run.Run does not report them
 			prefix = "slogagent_"
-			inPort, mPort := freePort(), freePort()
+			var inPort, mPort int
 			confNow := func(kind string) string {
 				return strings.Replace(conf(kind, g.TwoKeys), "address: localhost:0", fmt.Sprintf("address: 127.0.0.1:%d", inPort), 1)
 			}
-			_ = os.WriteFile(cf, []byte(confNow("same")), 0o644)
-			cargs := []string{"ag-runmain", "-conf", cf, "-metrics", fmt.Sprintf("127.0.0.1:%d", mPort), "-memwindow", fmt.Sprint(defs.BufferMaxNumChunksInMemory)}
-			if g.Reload != "" {
-				cargs = append(cargs, "-reload")
-			}
-			if sc.ChunkRecords > 0 {
-				cargs = append(cargs, "-chunkrecords", fmt.Sprint(sc.ChunkRecords))
-			}
-			if g.InputFlushMs > 0 {
-				cargs = append(cargs, "-inputflush", fmt.Sprint(g.InputFlushMs))
-			}
-			child = exec.Command(os.Args[0], cargs...)
-			childErr = &strings.Builder{}
-			child.Stderr = childErr
-			if err := child.Start(); err != nil {
-				tr.Emit("HarnessError", "what", err.Error())
-				return tr
-			}
-			addrs = []string{fmt.Sprintf("127.0.0.1:%d", inPort)}
 			up := false
-			for t0 := time.Now(); time.Since(t0) < 5*time.Second; time.Sleep(5 * time.Millisecond) {
-				if c, err := net.DialTimeout("tcp", addrs[0], 200*time.Millisecond); err == nil {
-					c.Close() // (an empty connection: the agent sees it come and go)
-					up = true
-					break
+			for attempt := 0; attempt < 4 && !up; attempt++ { // (a port picked here may be taken by another process before the child binds it)
+				inPort, mPort = freePort(), freePort()
+				_ = os.WriteFile(cf, []byte(confNow("same")), 0o644)
+				cargs := []string{"ag-runmain", "-conf", cf, "-metrics", fmt.Sprintf("127.0.0.1:%d", mPort), "-memwindow", fmt.Sprint(defs.BufferMaxNumChunksInMemory)}
+				if g.Reload != "" {
+					cargs = append(cargs, "-reload")
+				}
+				if sc.ChunkRecords > 0 {
+					cargs = append(cargs, "-chunkrecords", fmt.Sprint(sc.ChunkRecords))
+				}
+				if g.InputFlushMs > 0 {
+					cargs = append(cargs, "-inputflush", fmt.Sprint(g.InputFlushMs))
+				}
+				child = exec.Command(os.Args[0], cargs...)
+				childErr = &safeBuf{}
+				child.Stderr = childErr
+				if err := child.Start(); err != nil {
+					tr.Emit("HarnessError", "what", err.Error())
+					return tr
+				}
+				addrs = []string{fmt.Sprintf("127.0.0.1:%d", inPort)}
+				for t0 := time.Now(); time.Since(t0) < 5*time.Second && !strings.Contains(childErr.String(), "address already in use"); time.Sleep(5 * time.Millisecond) {
+					// both listeners are up (the metric listener is the last thing run.Run starts)
+					if c, err := net.DialTimeout("tcp", fmt.Sprintf("127.0.0.1:%d", mPort), 200*time.Millisecond); err == nil {
+						c.Close()
+						if c2, err2 := net.DialTimeout("tcp", addrs[0], 200*time.Millisecond); err2 == nil {
+							c2.Close() // (an empty connection: the agent sees it come and go)
+							up = true
+							break
+						}
+					}
+				}
+				if !up {
+					_ = child.Process.Kill()
+					_ = child.Wait()
+					if strings.Contains(childErr.String(), "address already in use") {
+						continue
+					}
+					tr.Emit("HarnessError", "what", "the agent process did not start listening: "+childErr.String())
+					return tr
 				}
 			}
 			if !up {
-				_ = child.Process.Kill()
-				tr.Emit("HarnessError", "what", "the agent process did not start listening: "+childErr.String())
+				tr.Emit("HarnessError", "what", "the agent process did not start listening (ports taken four times): "+childErr.String())
 				return tr
 			}
 			gather = func() map[string]float64 { return scrape(fmt.Sprintf("http://127.0.0.1:%d/metrics", mPort)) }
@@ -747,7 +764,11 @@ func RunScript(sc Script, work string) *vtrace.Tracer {
 		exitOK := true
 		go func() {
 			if child != nil {
-				_ = child.Process.Signal(syscall.SIGTERM)
+				if sc.StopWithInt {
+					_ = child.Process.Signal(syscall.SIGINT)
+				} else {
+					_ = child.Process.Signal(syscall.SIGTERM)
+				}
 				exitOK = child.Wait() == nil
 			} else {
 				shutdownInputs()
@@ -824,6 +845,24 @@ func RunScript(sc Script, work string) *vtrace.Tracer {
 			"passedByHost", byHost, "reloaded", g.Reload != "")
 	}
 	return tr
+}
+
+// safeBuf collects the child's stderr; it is read while the child still writes
+type safeBuf struct {
+	mu sync.Mutex
+	b  strings.Builder
+}
+
+func (s *safeBuf) Write(p []byte) (int, error) {
+	s.mu.Lock()
+	defer s.mu.Unlock()
+	return s.b.Write(p)
+}
+
+func (s *safeBuf) String() string {
+	s.mu.Lock()
+	defer s.mu.Unlock()
+	return s.b.String()
 }
 
 // freePort asks the kernel for a free TCP port
